@@ -4,6 +4,7 @@ from fractions import Fraction
 from common import *
 from absint import lower_driver, Unsupported
 from tensoralg import *
+from tensoralg import Specialiser
 import poly as P
 
 RULE = ("Poly-domain abstract interpretation of the -O2 IR of each closed-form stensor operation (N=1,2,3): the "
@@ -25,6 +26,9 @@ def run(tier):
     dims = (1, 2, 3)
     for opt in opts:
         P.reset_registry()
+        spz = Specialiser()
+        syms = spz.syms
+        sdesc = ""
         mod = lower_driver(drv, os.path.join(OUT, "C01"), "c01" + opt, opt=opt)
 
         def one(fname, inputs, outs, scal=()):
@@ -34,8 +38,10 @@ def run(tier):
                 r = run_shim(mod, fname, inputs, outs, scalars=scal)
             except Unsupported as e:
                 raise AnalysisBroken("%s (%s): outside the straight-line algebraic fragment: %s" % (fname, opt, e))
-            if len(r) != 1:
-                raise AnalysisBroken("%s: %d paths, expected straight-line code" % (fname, len(r)))
+            try:
+                r = [spz.select(fname, r)]
+            except Unsupported as e:
+                raise AnalysisBroken("%s (%s): %s" % (fname, opt, e))
             rep.count("shims interpreted (%s)" % opt)
             for v in r[0][1]:
                 if any(x is None for x in v):
@@ -52,96 +58,97 @@ def run(tier):
                 rep.ok("%s<%d>: %s (%d components, %s)" % (name, N, what, len(got), opt), sample=(N == 3 and opt == "-O2"))
             else:
                 i, x, y = d
-                rep.fail(key, "%s<%d> component %d is  %r  but the definition (%s) gives  %r" % (name, N, i, x, what, y),
+                rep.fail(key, "%s<%d> component %d is  %r  but the definition (%s) gives  %r%s" % (name, N, i, x, what, y, sdesc),
                          component=i, optimisation=opt)
-        for N in dims:
-            n = SSZ[N]
-            a, b = syms("a", n), syms("b", n)
-            A, B = stensor_matrix(a, N), stensor_matrix(b, N)
-            half = Fraction(1, 2)
-            # trace, det
-            check("trace", N, one("verif_trace_%d" % N, [a], [1])[1][0], [trace3(A)], "tr M(s)")
-            detv = one("verif_det_%d" % N, [a], [1])[1][0]
-            check("det", N, detv, [det3(A)], "det M(s)")
-            # invert: M(inv) . M(s) = I
-            inv = one("verif_invert_%d" % N, [a], [n])[1][0]
-            prod = matmul(stensor_matrix(inv, N), A)
-            flat = [prod[i][j] for i in range(3) for j in range(3)]
-            check("invert", N, flat, [Rat(1 if i == j else 0) for i in range(3) for j in range(3)], "M(invert(s)).M(s) = I")
-            # square, symmetric product
-            sq = one("verif_square_%d" % N, [a], [n])[1][0]
-            check("square", N, sq, matrix_stensor(matmul(A, A), N), "M(s)^2")
-            sp = one("verif_symprod_%d" % N, [a, b], [n])[1][0]
-            AB = madd(matmul(A, B), matmul(B, A))
-            check("symmetric_product", N, sp, matrix_stensor(mscale(AB, half), N), "(AB+BA)/2")
-            spaa = one("verif_symprod_%d" % N, [a, a], [n])[1][0]
-            check("symmetric_product(s,s)=square(s)", N, spaa, sq, "square(s)")
-            # deviator
-            dv = one("verif_deviator_%d" % N, [a], [n])[1][0]
-            tr3 = trace3(A) * Fraction(1, 3)
-            want = matrix_stensor(madd(A, mscale(ident(), tr3), 1, -1), N)
-            check("deviator", N, dv, want, "M(s) - tr/3 I")
-            # sigmaeq^2 = 3/2 dev:dev
-            se = one("verif_sigmaeq_%d" % N, [a], [1])[1][0][0]
-            D = stensor_matrix(want, N)
-            dd = sum((D[i][j] * D[i][j] for i in range(3) for j in range(3)), Rat(0))
-            check("sigmaeq^2", N, [se * se], [dd * Fraction(3, 2)], "3/2 dev:dev")
-            # contraction
-            ct = one("verif_contract_%d" % N, [a, b], [1])[1][0]
-            check("contraction s1|s2", N, ct, [sum((A[i][j] * B[i][j] for i in range(3) for j in range(3)), Rat(0))], "sum Mij Nij")
-            # change of basis: which convention, and agreement of the two entry points
-            r = syms("r", 9)
-            R = [r[0:3], r[3:6], r[6:9]]
-            if N < 3:
-                # in 1D/2D a rotation keeps the out-of-plane axis: structural zeros
-                for (i, j) in ((0, 2), (1, 2), (2, 0), (2, 1)):
-                    R[i][j] = Rat(0)
-                R[2][2] = Rat(1)
+        for sdesc in spz.passes():
+            for N in dims:
+                n = SSZ[N]
+                a, b = syms("a", n), syms("b", n)
+                A, B = stensor_matrix(a, N), stensor_matrix(b, N)
+                half = Fraction(1, 2)
+                # trace, det
+                check("trace", N, one("verif_trace_%d" % N, [a], [1])[1][0], [trace3(A)], "tr M(s)")
+                detv = one("verif_det_%d" % N, [a], [1])[1][0]
+                check("det", N, detv, [det3(A)], "det M(s)")
+                # invert: M(inv) . M(s) = I
+                inv = one("verif_invert_%d" % N, [a], [n])[1][0]
+                prod = matmul(stensor_matrix(inv, N), A)
+                flat = [prod[i][j] for i in range(3) for j in range(3)]
+                check("invert", N, flat, [Rat(1 if i == j else 0) for i in range(3) for j in range(3)], "M(invert(s)).M(s) = I")
+                # square, symmetric product
+                sq = one("verif_square_%d" % N, [a], [n])[1][0]
+                check("square", N, sq, matrix_stensor(matmul(A, A), N), "M(s)^2")
+                sp = one("verif_symprod_%d" % N, [a, b], [n])[1][0]
+                AB = madd(matmul(A, B), matmul(B, A))
+                check("symmetric_product", N, sp, matrix_stensor(mscale(AB, half), N), "(AB+BA)/2")
+                spaa = one("verif_symprod_%d" % N, [a, a], [n])[1][0]
+                check("symmetric_product(s,s)=square(s)", N, spaa, sq, "square(s)")
+                # deviator
+                dv = one("verif_deviator_%d" % N, [a], [n])[1][0]
+                tr3 = trace3(A) * Fraction(1, 3)
+                want = matrix_stensor(madd(A, mscale(ident(), tr3), 1, -1), N)
+                check("deviator", N, dv, want, "M(s) - tr/3 I")
+                # sigmaeq^2 = 3/2 dev:dev
+                se = one("verif_sigmaeq_%d" % N, [a], [1])[1][0][0]
+                D = stensor_matrix(want, N)
+                dd = sum((D[i][j] * D[i][j] for i in range(3) for j in range(3)), Rat(0))
+                check("sigmaeq^2", N, [se * se], [dd * Fraction(3, 2)], "3/2 dev:dev")
+                # contraction
+                ct = one("verif_contract_%d" % N, [a, b], [1])[1][0]
+                check("contraction s1|s2", N, ct, [sum((A[i][j] * B[i][j] for i in range(3) for j in range(3)), Rat(0))], "sum Mij Nij")
+                # change of basis: which convention, and agreement of the two entry points
+                r = syms("r", 9)
+                R = [r[0:3], r[3:6], r[6:9]]
+                if N < 3:
+                    # in 1D/2D a rotation keeps the out-of-plane axis: structural zeros
+                    for (i, j) in ((0, 2), (1, 2), (2, 0), (2, 1)):
+                        R[i][j] = Rat(0)
+                    R[2][2] = Rat(1)
+                    if N == 1:
+                        R = ident()
+                rin = [R[i][j] for i in range(3) for j in range(3)]
+                if N > 1:
+                    cb = one("verif_changebasis_%d" % N, [a, rin], [n])[1][0]
+                    cbm = one("verif_changeBasis_member_%d" % N, [a, rin], [n])[1][0]
+                    w1 = matrix_stensor(matmul(matmul(transpose(R), A), R), N)
+                    w2 = matrix_stensor(matmul(matmul(R, A), transpose(R)), N)
+                    m1, m2 = eq_list(cb, w1), eq_list(cb, w2)
+                    conv = "Rt.M.R" if m1 and not m2 else ("R.M.Rt" if m2 and not m1 else "none/both")
+                    if conv == CHANGE_BASIS_CONVENTION:
+                        rep.ok("change_basis<%d>(s,r) = %s (%s)" % (N, conv, opt))
+                    else:
+                        d = first_diff(cb, w1)
+                        rep.fail("IDENTITY@change_basis<%d>" % N,
+                                 "change_basis<%d>: matches %s, expected %s; component %s%s" % (N, conv, CHANGE_BASIS_CONVENTION, d and d[0], sdesc))
+                    check("stensor::changeBasis = change_basis", N, cbm, cb, "free function")
+                # builders
+                fm = one("verif_fromMatrix_%d" % N, [rin if N > 1 else syms("r", 9)], [n])[1][0]
+                Rm = R if N > 1 else [syms("r", 9)[0:3], syms("r", 9)[3:6], syms("r", 9)[6:9]]
+                check("buildFromMatrix", N, fm, matrix_stensor(Rm, N), "symmetric part of m, Mandel scaled")
+                v, w = syms("v", 3), syms("w", 3)
+                vv = [[v[i] * v[j] for j in range(3)] for i in range(3)]
+                check("buildFromVectorDiadicProduct", N, one("verif_fromVectorDiadic_%d" % N, [v], [n])[1][0],
+                      matrix_stensor(vv, N), "v (x) v")
+                vw = [[v[i] * w[j] + w[i] * v[j] for j in range(3)] for i in range(3)]
+                check("buildFromVectorsSymmetricDiadicProduct", N, one("verif_fromVectorsSymDiadic_%d" % N, [v, w], [n])[1][0],
+                      matrix_stensor(vw, N, symmetrise=False), "v (x) w + w (x) v")
+                ev = syms("l", 3)
+                Rg = R if N > 1 else ident()
                 if N == 1:
-                    R = ident()
-            rin = [R[i][j] for i in range(3) for j in range(3)]
-            if N > 1:
-                cb = one("verif_changebasis_%d" % N, [a, rin], [n])[1][0]
-                cbm = one("verif_changeBasis_member_%d" % N, [a, rin], [n])[1][0]
-                w1 = matrix_stensor(matmul(matmul(transpose(R), A), R), N)
-                w2 = matrix_stensor(matmul(matmul(R, A), transpose(R)), N)
-                m1, m2 = eq_list(cb, w1), eq_list(cb, w2)
-                conv = "Rt.M.R" if m1 and not m2 else ("R.M.Rt" if m2 and not m1 else "none/both")
-                if conv == CHANGE_BASIS_CONVENTION:
-                    rep.ok("change_basis<%d>(s,r) = %s (%s)" % (N, conv, opt))
-                else:
-                    d = first_diff(cb, w1)
-                    rep.fail("IDENTITY@change_basis<%d>" % N,
-                             "change_basis<%d>: matches %s, expected %s; component %s" % (N, conv, CHANGE_BASIS_CONVENTION, d and d[0]))
-                check("stensor::changeBasis = change_basis", N, cbm, cb, "free function")
-            # builders
-            fm = one("verif_fromMatrix_%d" % N, [rin if N > 1 else syms("r", 9)], [n])[1][0]
-            Rm = R if N > 1 else [syms("r", 9)[0:3], syms("r", 9)[3:6], syms("r", 9)[6:9]]
-            check("buildFromMatrix", N, fm, matrix_stensor(Rm, N), "symmetric part of m, Mandel scaled")
-            v, w = syms("v", 3), syms("w", 3)
-            vv = [[v[i] * v[j] for j in range(3)] for i in range(3)]
-            check("buildFromVectorDiadicProduct", N, one("verif_fromVectorDiadic_%d" % N, [v], [n])[1][0],
-                  matrix_stensor(vv, N), "v (x) v")
-            vw = [[v[i] * w[j] + w[i] * v[j] for j in range(3)] for i in range(3)]
-            check("buildFromVectorsSymmetricDiadicProduct", N, one("verif_fromVectorsSymDiadic_%d" % N, [v, w], [n])[1][0],
-                  matrix_stensor(vw, N, symmetrise=False), "v (x) w + w (x) v")
-            ev = syms("l", 3)
-            Rg = R if N > 1 else ident()
-            if N == 1:
-                rin1 = [Rg[i][j] for i in range(3) for j in range(3)]
-            spec = [[sum((ev[k] * Rg[i][k] * Rg[j][k] for k in range(3)), Rat(0)) for j in range(3)] for i in range(3)]
-            fe = one("verif_fromEigen_%d" % N, [ev, rin if N > 1 else rin1], [n])[1][0]
-            check("buildFromEigenValuesAndVectors", N, fe, matrix_stensor(spec, N), "sum_k l_k n_k (x) n_k, n_k = column k of m")
-            # import / export
-            t = syms("t", n)
-            imp = one("verif_importTab_%d" % N, [t], [n])[1][0]
-            r2 = S2()
-            check("importTab", N, imp, t[:3] + [x * r2 for x in t[3:]], "shear components multiplied by sqrt2")
-            exp = one("verif_exportTab_%d" % N, [a], [n])[1][0]
-            check("exportTab", N, exp, a[:3] + [x / r2 for x in a[3:]], "shear components divided by sqrt2")
-            check("exportTab(importTab(t)) = t", N, [x / r2 if i >= 3 else x for i, x in enumerate(imp)], t, "round trip")
-            iv = one("verif_importVoigt_%d" % N, [t], [n])[1][0]
-            check("importVoigt", N, iv, t[:3] + [x / r2 for x in t[3:]], "engineering shear (2 eps_ij) divided by sqrt2")
+                    rin1 = [Rg[i][j] for i in range(3) for j in range(3)]
+                spec = [[sum((ev[k] * Rg[i][k] * Rg[j][k] for k in range(3)), Rat(0)) for j in range(3)] for i in range(3)]
+                fe = one("verif_fromEigen_%d" % N, [ev, rin if N > 1 else rin1], [n])[1][0]
+                check("buildFromEigenValuesAndVectors", N, fe, matrix_stensor(spec, N), "sum_k l_k n_k (x) n_k, n_k = column k of m")
+                # import / export
+                t = syms("t", n)
+                imp = one("verif_importTab_%d" % N, [t], [n])[1][0]
+                r2 = S2()
+                check("importTab", N, imp, t[:3] + [x * r2 for x in t[3:]], "shear components multiplied by sqrt2")
+                exp = one("verif_exportTab_%d" % N, [a], [n])[1][0]
+                check("exportTab", N, exp, a[:3] + [x / r2 for x in a[3:]], "shear components divided by sqrt2")
+                check("exportTab(importTab(t)) = t", N, [x / r2 if i >= 3 else x for i, x in enumerate(imp)], t, "round trip")
+                iv = one("verif_importVoigt_%d" % N, [t], [n])[1][0]
+                check("importVoigt", N, iv, t[:3] + [x / r2 for x in t[3:]], "engineering shear (2 eps_ij) divided by sqrt2")
     rep.floor("shims interpreted (-O2)", 51)
     rep.assumptions += ["exact real arithmetic: nothing is decided about rounding, overflow or degenerate inputs (det = 0)",
                         "Mandel convention (xx,yy,zz,sqrt2 xy,sqrt2 xz,sqrt2 yz) as documented in docs/web/tensors.md",
